@@ -443,6 +443,24 @@ func freshInputsRule(c *Ctx, rule string) {
 				for _, e := range edges {
 					if e.Site == nil || e.Site.Common().StaticCallee() != f || !callsReader(e.Caller.Func) {
 						hidden = false
+						continue
+					}
+					// what f returned is what the caller hands to the reader
+					flows := false
+					res, _ := e.Site.(*ssa.Call)
+					for _, cs := range callSitesIn(e.Caller.Func, false, hopID("transport", "Server", "readPQClientRequestHidden")) {
+						for _, a := range cs.Common().Args {
+							v := lookThrough(a)
+							if ex, ok := v.(*ssa.Extract); ok {
+								v = ex.Tuple
+							}
+							if res != nil && v == ssa.Value(res) {
+								flows = true
+							}
+						}
+					}
+					if !flows {
+						hidden = false
 					}
 				}
 			}
